@@ -266,9 +266,14 @@ def r14h(chk, rid='R14.h'):
             raise AnalysisError(f'Profiles.__init__: {res!r}')
         for k, v in copy.deepcopy(_reference_state(builtin, content)).items():
             setattr(me, k, v)
+        me._defaultProfiles = list(DEFAULTS)  # a selection that names a registered and an unregistered profile
         return me
 
+    DEFAULTS = ('A', 'nope')
+
     def observe(me):
+        if list(me._defaultProfiles or ()) != list(DEFAULTS):
+            return {'_usedMacros': f'the selection of default profiles became {me._defaultProfiles!r} (it is the user\'s setting, no registry operation writes it)', '_profileNames': None, '_rawProfiles': None, '_profilesProperties': None, '_knownNames': None}
         return {'_usedMacros': dict(me._usedMacros), '_profileNames': list(me._profileNames),
                 '_rawProfiles': {k: {kk: dict(vv) for kk, vv in v.items()} for k, v in me._rawProfiles.items()},
                 '_profilesProperties': {k: dict(v) for k, v in me._profilesProperties.items()},
@@ -327,6 +332,11 @@ def r14h(chk, rid='R14.h'):
         sequence(f'a profile {what} added, removed, and another profile added: prescribed state', AB,
                  [('addProfile', {'profile': X[0], 'properties': X[1], 'macros': X[2]}), ('removeProfile', {'profile': X[0]}), ('addProfile', {'profile': N[0], 'properties': N[1], 'macros': None})], AB + [N])
     sequence('everything removed, then a profile added: prescribed state', AB, [('removeProfile', {'all': True}), ('addProfile', {'profile': N[0], 'properties': N[1], 'macros': None})], [N])
+    X2 = ('X2', {'px2': 'x{%s}' % tok2}, {})  # uses the built-in macro that S2 shadowed, defines none
+    sequence('a shadowing profile added, everything removed, a profile that uses the shadowed built-in macro added: it gets the built-in definition', AB,
+             [('addProfile', {'profile': S2[0], 'properties': S2[1], 'macros': S2[2]}), ('removeProfile', {'all': True}), ('addProfile', {'profile': X2[0], 'properties': X2[1], 'macros': None})], [X2])
+    sequence('the same with the profiles removed one by one', [A],
+             [('addProfile', {'profile': S2[0], 'properties': S2[1], 'macros': S2[2]}), ('removeProfile', {'profile': 'S2'}), ('removeProfile', {'profile': 'A'}), ('addProfile', {'profile': X2[0], 'properties': X2[1], 'macros': None})], [X2])
     for X, what in ((N, 'without macros'), (F, 'with new macros'), (S, 'whose macros shadow a built-in macro'), (S2, 'whose macros shadow a built-in macro nobody else shadows'), (T, "whose macros shadow another profile's macro")):
         case(f'addProfile of a profile {what}', AB, 'addProfile', {'profile': X[0], 'properties': X[1], 'macros': X[2] or None}, AB + [X])
         case(f'addProfiles with one profile {what}', AB, 'addProfiles', {'profiles': [X]}, AB + [X])
